@@ -67,6 +67,11 @@ type World struct {
 	Epochs   *EpochNotifier
 	Log      []Write
 	FaultHit bool
+	// CounterReadFaults: while set, a read of a nonce-counter key may fail (symbolic fault bit per
+	// read). Storage reads are fail-soft for the entries whose absence is a valid state; the
+	// counter is not one of them: "could not read" must not become "no nonce issued yet" (C07).
+	CounterReadFaults bool
+	ReadFaultHit      bool
 	// SysDestCall: the call under test is a transfer addressed to the system account (finding F10's class)
 	SysDestCall bool
 	// RoleDiscipline states the system contract's discipline for role-list writes (C15): given the
@@ -251,6 +256,20 @@ func (a *Account) Find(key []byte) *Cell {
 
 // RetrieveValue returns the current value, generating the pre-state lazily.
 func (a *Account) RetrieveValue(key []byte) ([]byte, error) {
+	if a.W.CounterReadFaults && KeyClass(key) == "nonce" {
+		// the cell is materialised all the same: the oracle compares against what is stored
+		if a.Find(key) == nil {
+			k := cloneBytes(key)
+			c := &Cell{Key: k, Gen: true}
+			c.Init = a.W.genValue(a, k)
+			c.Cur = c.Init
+			a.Cells = append(a.Cells, c)
+		}
+		if verif.Fault("fault.RetrieveValue.counter") {
+			a.W.ReadFaultHit = true
+			return nil, ErrFault
+		}
+	}
 	if c := a.Find(key); c != nil {
 		return c.Cur, nil
 	}
